@@ -14,6 +14,8 @@ use serde::{Deserialize, Serialize};
 pub enum Op {
     /// connect a new peer, handshake, bitfield with the given bits (mapped onto the piece count)
     Join(u64),
+    /// a (repeated) bitfield from a connected peer
+    Bitfield(u16, u64),
     Have(u16, u16),
     Choke(u16),
     /// choke, but the blocks already requested stay in flight (the peer still answers them)
@@ -41,6 +43,7 @@ fn strategy() -> BoxedStrategy<Case> {
     let op = prop_oneof![
         3 => any::<u64>().prop_map(Op::Join),
         2 => (any::<u16>(), any::<u16>()).prop_map(|(p, i)| Op::Have(p, i)),
+        1 => (any::<u16>(), any::<u64>()).prop_map(|(p, b)| Op::Bitfield(p, b)),
         2 => any::<u16>().prop_map(Op::Choke),
         2 => any::<u16>().prop_map(Op::ChokeKeep),
         5 => any::<u16>().prop_map(Op::Unchoke),
@@ -58,6 +61,8 @@ fn strategy() -> BoxedStrategy<Case> {
         1 => Just(vec![Op::Join(5), Op::Join(5), Op::Unchoke(0), Op::ChokeKeep(0), Op::Unchoke(65535), Op::Unchoke(0)]),
         1 => Just(vec![Op::Join(5), Op::Join(7), Op::Unchoke(0), Op::ChokeKeep(0), Op::Unchoke(65535)]),
         1 => Just(vec![Op::Join(0), Op::Join(0), Op::Unchoke(0), Op::Unchoke(65535), Op::ChokeKeep(0), Op::Deliver(0)]),
+        // a peer in the middle of a download sends a second, empty bitfield and then announces pieces one by one
+        1 => Just(vec![Op::Join(0), Op::Unchoke(0), Op::Bitfield(0, 1)]),
     ];
     (prop_oneof![3usize..=16, 11usize..=16], prop_oneof![Just(1usize), 1usize..=64], template, vec(op, 0..80), any::<u64>())
         .prop_map(|(pieces, piece_len, mut pre, ops, seed)| {
@@ -269,6 +274,16 @@ pub fn check(c: &Case) -> Outcome {
                             net.have(w, p, i);
                         }
                     }
+                    Op::Bitfield(p, bits) => {
+                        if let Some(p) = pick(*p) {
+                            let b = bits_from(*bits, c.pieces);
+                            // what the peer advertised before stays advertised from the harness's point of view
+                            let merged: Vec<bool> = b.iter().zip(net.peers[p].advertised.iter()).map(|(x, y)| *x || *y).collect();
+                            net.bitfield(w, p, &b);
+                            net.peers[p].advertised = merged;
+                            classes.push("repeated-bitfield");
+                        }
+                    }
                     Op::Choke(p) => {
                         if let Some(p) = pick(*p) {
                             let assigned = w.snapshot().peers.iter().any(|ps| ps.addr == net.peers[p].addr && ps.piece_index.is_some());
@@ -413,7 +428,7 @@ pub fn def() -> PropDef {
             cases: |t| t.pick(12_000, 200_000),
             run: |ctx| run_proptest(ctx, "histories", strategy(), check),
             replay: |v| replay_case::<Case>(v, check),
-            min_class: &[(">=2-peers", 0.4196), ("choke-while-assigned", 0.2), ("disconnect-while-assigned", 0.1), (">=10-missing-with-2-peers", 0.15), ("redundant-unchoke", 0.2), ("redundant-choke", 0.1), ("block-delivered-while-choking", 0.02)],
+            min_class: &[(">=2-peers", 0.4196), ("choke-while-assigned", 0.2), ("disconnect-while-assigned", 0.1), (">=10-missing-with-2-peers", 0.15), ("redundant-unchoke", 0.2), ("redundant-choke", 0.1), ("block-delivered-while-choking", 0.02), ("repeated-bitfield", 0.1)],
         }],
     }
 }
